@@ -23,7 +23,7 @@ impl Deserialize for ExUnits {
             let steps = (|| -> Result<_, DeserializeError> { Ok(BigNum::deserialize(raw)?) })()
                 .map_err(|e| e.annotate("steps"))?;
             match len {
-                cbor_event::Len::Len(_) => (),
+                cbor_event::Len::Len(_) => read_len.finish()?,
                 cbor_event::Len::Indefinite => match raw.special()? {
                     CBORSpecial::Break => (),
                     _ => return Err(DeserializeFailure::EndingBreakMissing.into()),
